@@ -5,8 +5,10 @@ import (
 	"encoding/binary"
 	"encoding/hex"
 	"encoding/json"
+	"fmt"
 	"math"
 	"sort"
+	"strings"
 
 	"github.com/paulmach/orb"
 	"github.com/paulmach/orb/encoding/ewkb"
@@ -113,6 +115,53 @@ type c01Scanner struct {
 	w   *wkb.GeometryScanner
 	e   *ewkb.GeometryScanner
 	get func() orb.Geometry
+	// what the previous scan handed out (the Geometry attribute and the typed destination's value at that time) and
+	// its coordinates bit for bit: a later scan into the same destination must not write into it
+	prev     []orb.Geometry
+	prevBits []string
+}
+
+// geomBits: kind and coordinates of a geometry, bit for bit (NaNs included).
+func geomBits(g orb.Geometry) string {
+	if g == nil {
+		return "nil"
+	}
+	var sb strings.Builder
+	fmt.Fprintf(&sb, "%T", g)
+	if b, ok := g.(orb.Bound); ok {
+		g = orb.MultiPoint{b.Min, b.Max}
+	}
+	var walk func(g orb.Geometry)
+	walk = func(g orb.Geometry) {
+		switch v := g.(type) {
+		case orb.Collection:
+			for _, m := range v {
+				fmt.Fprintf(&sb, "|%T", m)
+				walk(m)
+			}
+		case orb.MultiLineString:
+			for _, l := range v {
+				sb.WriteString("/")
+				walk(l)
+			}
+		case orb.Polygon:
+			for _, l := range v {
+				sb.WriteString("/")
+				walk(l)
+			}
+		case orb.MultiPolygon:
+			for _, l := range v {
+				sb.WriteString("#")
+				walk(l)
+			}
+		default:
+			for _, p := range flatPoints(g) {
+				fmt.Fprintf(&sb, " %x,%x", math.Float64bits(p[0]), math.Float64bits(p[1]))
+			}
+		}
+	}
+	walk(g)
+	return sb.String()
 }
 
 var c01Scanners = map[string]*c01Scanner{}
@@ -121,7 +170,9 @@ var c01PrevOut, c01PrevCopy [][]byte
 
 func c01Persistent(pkg string, d wkbDest, prefix bool) *c01Scanner {
 	key := pkg + "/" + d.name
-	if prefix {
+	if prefix && pkg != "wkb" {
+		// (the wkb scanner is one constructor for every framing: the same object sees SRID-prefixed rows and then raw or
+		// hex ones; the ewkb prefix scanner is a different constructor)
 		key += "/prefix"
 	}
 	if ps, ok := c01Scanners[key]; ok {
@@ -311,6 +362,22 @@ func c01Event(c *ctx, g orb.Geometry, pkg string, le bool, srid int, psrid int, 
 					}
 					if !same {
 						r.Reuse = 0
+					}
+					// what the previous scan with this scanner handed out is still what it was
+					for i, pv := range ps.prev {
+						if geomBits(pv) != ps.prevBits[i] {
+							r.Reuse = 0
+						}
+					}
+					ps.prev, ps.prevBits = ps.prev[:0], ps.prevBits[:0]
+					if perr == nil {
+						ps.prev = append(ps.prev, pg)
+						if ps.get != nil {
+							ps.prev = append(ps.prev, ps.get())
+						}
+						for _, pv := range ps.prev {
+							ps.prevBits = append(ps.prevBits, geomBits(pv))
+						}
 					}
 				}
 				if serr == nil {
